@@ -28,8 +28,27 @@ func ZZ_C13_Cond() {
 		zzverif.Assume(c >= 'a' && c <= 'z')
 		return string(rune(c))
 	}
-	pmode := "m" + letter("pmode")
-	pterm := "t" + letter("pterm")
+	// letters of either case: mode= and term= values compare exactly, application names
+	// without regard to case (the application registers its name in lower case)
+	anyCase := func(name string) string {
+		if zzverif.Param("case") != "1" {
+			return letter(name)
+		}
+		c := zzverif.Byte(name)
+		zzverif.Assume((c >= 'a' && c <= 'z') || (c >= 'A' && c <= 'Z'))
+		return string(rune(c))
+	}
+	lower := func(s string) string {
+		b := []byte(s)
+		for i, c := range b {
+			if c >= 'A' && c <= 'Z' {
+				b[i] = c + 32
+			}
+		}
+		return string(b)
+	}
+	pmode := "m" + anyCase("pmode")
+	pterm := "t" + anyCase("pterm")
 	papp := "a" + letter("papp")
 
 	text := ""
@@ -80,26 +99,26 @@ func ZZ_C13_Cond() {
 		zzverif.Assume(len(stack) <= d-i)
 		switch kind {
 		case 0:
-			m := "m" + letter("m"+idx)
+			m := "m" + anyCase("m"+idx)
 			text += "$if mode=" + m + "\n"
 			if !curActive() {
 				nestedInInactive = true
 			}
 			stack = append(stack, zzFrame{parent: curActive(), cond: m == pmode})
 		case 1:
-			t := "t" + letter("t"+idx)
+			t := "t" + anyCase("t"+idx)
 			text += "$if term=" + t + "\n"
 			if !curActive() {
 				nestedInInactive = true
 			}
 			stack = append(stack, zzFrame{parent: curActive(), cond: t == pterm})
 		case 2:
-			a := "a" + letter("a"+idx)
+			a := "a" + anyCase("a"+idx)
 			text += "$if " + a + "\n"
 			if !curActive() {
 				nestedInInactive = true
 			}
-			stack = append(stack, zzFrame{parent: curActive(), cond: a == papp})
+			stack = append(stack, zzFrame{parent: curActive(), cond: lower(a) == papp})
 		case 3:
 			zzverif.Assume(len(stack) > 0 && !stack[len(stack)-1].inElse)
 			text += "$else\n"
